@@ -31,7 +31,7 @@ def _scalar(ctx, name, cplx):
     return ctx.var(name)
 
 
-def make_operand(ctx, algopy, kind, name, shape, D, P, cplx):
+def make_operand(ctx, algopy, kind, name, shape, D, P, cplx, scale=None):
     """returns (object, coeff) with coeff(d, p, idx) the d-th coefficient of the
     element idx in direction p as a number of the run's type"""
     shape = tuple(shape)
@@ -40,6 +40,9 @@ def make_operand(ctx, algopy, kind, name, shape, D, P, cplx):
         X = np.empty((D, P) + shape, dtype=object)
         for idx in np.ndindex(*X.shape):
             X[idx] = _scalar(ctx, '%s%s' % (name, list(idx)), cplx)
+            if scale is not None:
+                # operand of extreme magnitude (every coefficient times 2**k)
+                X[idx] = X[idx] * (Fraction(2) ** scale if sym else 2.0 ** scale)
         if sym:
             obj = algopy.UTPM(npx.sarr(X, complex if cplx else float))
         else:
@@ -108,7 +111,7 @@ IOPS = {
 }
 
 
-def h_binop(ctx, op, lkind, rkind, lshape, rshape, D, P, lc=False, rc=False, form='binary'):
+def h_binop(ctx, op, lkind, rkind, lshape, rshape, D, P, lc=False, rc=False, form='binary', lscale=None, rscale=None):
     algopy = symx.load_algopy()
     ls, rs = kshape(lkind, lshape), kshape(rkind, rshape)
     try:
@@ -117,8 +120,8 @@ def h_binop(ctx, op, lkind, rkind, lshape, rshape, D, P, lc=False, rc=False, for
         return
     if form == 'inplace' and oshape != ls:
         return
-    x, xc = make_operand(ctx, algopy, lkind, 'x', lshape, D, P, lc)
-    y, yc = make_operand(ctx, algopy, rkind, 'y', rshape, D, P, rc)
+    x, xc = make_operand(ctx, algopy, lkind, 'x', lshape, D, P, lc, lscale)
+    y, yc = make_operand(ctx, algopy, rkind, 'y', rshape, D, P, rc, rscale)
     if op == 'div':
         # non-zero divisor base coefficient
         for p in range(P):
@@ -129,7 +132,7 @@ def h_binop(ctx, op, lkind, rkind, lshape, rshape, D, P, lc=False, rc=False, for
                 elif isinstance(y0, (S.Sym,)):
                     ctx.assume(y0 != 0)
                 elif ctx.mode == 'float':
-                    ctx.assume(abs(y0) > 1e-3)
+                    ctx.assume(abs(y0) > 1e-3 * (2.0 ** rscale if rscale else 1.0))
     xsnap = plain(x.data).copy() if lkind == 'utpm' else None
     ysnap = plain(y.data).copy() if rkind == 'utpm' else None
     try:
@@ -268,6 +271,17 @@ def units(tier, seed):
             for lc, rc in ((False, True), (True, False), (True, True)):
                 add('%s %s %s/complex(%s,%s)' % (lk, op, rk, lc, rc), 'h_binop', op=op, lkind=lk, rkind=rk,
                     lshape=(2,), rshape=(2,), D=D, P=(1 if tier == 'quick' else 2), lc=lc, rc=rc)
+    # operands of extreme magnitude (2**600, 2**-600): intermediate squares over/underflow in floats
+    for op in ('mul', 'div'):
+        for k in (600, -600):
+            for form in ('binary', 'inplace'):
+                for rc in ((False, True) if op == 'mul' else (False,)):     # (symbolic complex division squares the modulus: the float evaluator of the validation overflows)
+                    add('utpm %s%s utpm/(2,),(2,)/right operand times 2**%d%s' % (op, '=' if form == 'inplace' else '', k, ', complex' if rc else ''),
+                        'h_binop', op=op, lkind='utpm', rkind='utpm', lshape=(2,), rshape=(2,), D=3, P=1, lc=rc, rc=rc, form=form, rscale=k)
+    # long polynomials (fast paths that switch on for large D)
+    for op in ('mul', 'div'):
+        add('utpm %s utpm/(),()/D17,P1' % op, 'h_binop', op=op, lkind='utpm', rkind='utpm', lshape=(), rshape=(), D=17, P=1)
+        add('utpm %s= utpm/(2,),(2,)/D17,P1' % op, 'h_binop', op=op, lkind='utpm', rkind='utpm', lshape=(2,), rshape=(2,), D=17, P=1, form='inplace')
     for which in ('pyfloat_base', 'pyint_base', 'npfloat_exp', 'npint_exp', 'negint_exp', 'pyint_exp0', 'pyint_exp1', 'pyint_exp2', 'pyint_exp3', 'pyint_exp4', 'pyint_exp5', 'pyint_exp7'):
         add('pow/%s' % which, 'h_pow_kinds', which=which, D=D + 1, P=P)
     return out
